@@ -43,6 +43,7 @@ theorem fold_mono (n : Nat) : ∀ (t : Tree) (c d x : Ctx), leL c d → fold n t
   | .leaf (.write _), c, d, x, h, hv => by simp only [fold, foldElem] at hv ⊢; cases hv; exact ⟨d, rfl, h⟩
   | .leaf (.cache _), c, d, x, h, hv => by simp only [fold, foldElem] at hv ⊢; cases hv; exact ⟨d, rfl, h⟩
   | .leaf .data, c, d, x, h, hv => by simp only [fold, foldElem] at hv ⊢; cases hv; exact ⟨d, rfl, h⟩
+  | .leaf (.mut ..), c, d, x, h, hv => by simp only [fold, foldElem] at hv ⊢; cases hv; exact ⟨d, rfl, h⟩
   | .leaf .src, c, d, x, h, hv => by simp only [fold, foldElem] at hv ⊢; cases hv; exact ⟨d, rfl, h⟩
   | .seq _ cs, c, d, x, h, hv => by
     simp only [fold] at hv ⊢
@@ -102,6 +103,7 @@ theorem fold_length (n : Nat) : ∀ (t : Tree) (c x : Ctx), c.length = n → fol
   | .leaf (.write _), c, x, h, hv => by simp only [fold, foldElem] at hv; cases hv; exact h
   | .leaf (.cache _), c, x, h, hv => by simp only [fold, foldElem] at hv; cases hv; exact h
   | .leaf .data, c, x, h, hv => by simp only [fold, foldElem] at hv; cases hv; exact h
+  | .leaf (.mut ..), c, x, h, hv => by simp only [fold, foldElem] at hv; cases hv; exact h
   | .leaf .src, c, x, h, hv => by simp only [fold, foldElem] at hv; cases hv; exact h
   | .seq _ cs, c, x, h, hv => by
     simp only [fold] at hv
@@ -249,6 +251,7 @@ theorem getCtx_final (n : Nat) : ∀ (t : Tree) (F : List Ctx), t.hasGet = true 
   | .leaf (.write _), _, h => by simp [Tree.hasGet] at h
   | .leaf (.cache _), _, h => by simp [Tree.hasGet] at h
   | .leaf .data, _, h => by simp [Tree.hasGet] at h
+  | .leaf (.mut ..), _, h => by simp [Tree.hasGet] at h
   | .leaf .src, _, h => by simp [Tree.hasGet] at h
   | .seq kind cs, F, _ => by simp [final, getCtx, SC_get_ofExcept, fold]
   | .split bs, F, _ => by
@@ -385,6 +388,7 @@ theorem setCtx_final (n : Nat) : ∀ (t : Tree) (F : List Ctx) (c : Ctx), Hist n
   | .leaf (.cache t), F, c, hH, hne => by
     simp [final, leafFinal, setCtx, lastD_append_singleton, nameUpdate_final t _ c hH.lastD_le, hne]
   | .leaf .data, F, c, _, _ => by simp [final, leafFinal, setCtx]
+  | .leaf (.mut ..), F, c, _, _ => by simp [final, leafFinal, setCtx]
   | .leaf .src, F, c, _, _ => by simp [final, leafFinal, setCtx]
   | .seq kind cs, F, c, hH, _ => by
     obtain ⟨o, hloop, ho⟩ := loop_final n cs F c hH
